@@ -446,6 +446,9 @@ func (w *Worker) runPath(t task) {
 		r.outstanding--
 		if r.outstanding == 0 {
 			r.Wall = time.Since(r.start).Seconds()
+			if os.Getenv("GOSYM_PROGRESS") != "" {
+				fmt.Fprintf(os.Stderr, "done %s paths=%d steps=%d wall=%.1fs\n", r.Spec.ID(), r.Paths, r.Steps, r.Wall)
+			}
 		}
 		r.mu.Unlock()
 	}()
@@ -672,6 +675,20 @@ func overlayFor(repo, harnessDir, mode string) (map[string][]byte, map[string]st
 	if base == "native" {
 		tmpl = []byte(selectSections(string(tmpl), mode == "native_sync"))
 	}
+	// generated harness parts (from the repository's types)
+	gen, err := generateHarnessCached(repo)
+	if err != nil {
+		return nil, nil, err
+	}
+	genDir := filepath.Join(filepath.Dir(harnessDir), "out", "gen")
+	for rel, data := range gen.files {
+		v := filepath.Join(repo, rel)
+		ov[v] = data
+		real := filepath.Join(genDir, rel)
+		os.MkdirAll(filepath.Dir(real), 0o755)
+		os.WriteFile(real, data, 0o644)
+		files[v] = real
+	}
 	for dir, name := range pkgName {
 		v := filepath.Join(repo, dir, "zz_verif_rt.go")
 		ov[v] = []byte(strings.Replace(string(tmpl), "package PKG", "package "+name, 1))
@@ -702,4 +719,21 @@ func selectSections(src string, sync bool) string {
 		}
 	}
 	return strings.Join(out, "\n")
+}
+
+var genCache struct {
+	sync.Mutex
+	res *genResult
+	err error
+	ok  bool
+}
+
+func generateHarnessCached(repo string) (*genResult, error) {
+	genCache.Lock()
+	defer genCache.Unlock()
+	if !genCache.ok {
+		genCache.res, genCache.err = generateHarness(repo)
+		genCache.ok = true
+	}
+	return genCache.res, genCache.err
 }
